@@ -125,11 +125,55 @@ package satisfaction
 //@   assigns result, resultIds
 //@   ensures [leftovers_follow_in_order] forall k int :: 0 <= k && k < len(leftToChoice) ==> result[resultInsertIndex + k].Alternative == leftToChoice[k] && resultIds[resultInsertIndex + k] == leftToChoice[k].Id
 //@             && typeis(result[resultInsertIndex + k].Evaluation, SatisfactionEvaluation) && result[resultInsertIndex + k].Evaluation.(SatisfactionEvaluation).ThresholdsIndex == thresholdIndex + 1
+//@   ensures [ids_match_entries] forall j int :: resultInsertIndex <= j && j < resultInsertIndex + len(leftToChoice) ==> resultIds[j] == result[j].Alternative.Id
 //@   ensures [accepted_untouched] (forall k int :: 0 <= k && k < len(result) && (k < resultInsertIndex || k >= resultInsertIndex + len(leftToChoice)) ==> result[k] == old(result[k]))
 //@             && (forall k int :: 0 <= k && k < len(resultIds) && (k < resultInsertIndex || k >= resultInsertIndex + len(leftToChoice)) ==> resultIds[k] == old(resultIds[k]))
 //@   loop 1 invariant [position] $resultInsertIndex == resultInsertIndex + iter
 //@   loop 1 invariant [filled] forall k int :: 0 <= k && k < iter ==> result[resultInsertIndex + k].Alternative == leftToChoice[k] && resultIds[resultInsertIndex + k] == leftToChoice[k].Id
 //@             && typeis(result[resultInsertIndex + k].Evaluation, SatisfactionEvaluation) && result[resultInsertIndex + k].Evaluation.(SatisfactionEvaluation).ThresholdsIndex == thresholdIndex + 1
+//@   loop 1 invariant [ids_match_entries] forall j int :: resultInsertIndex <= j && j < resultInsertIndex + iter ==> resultIds[j] == result[j].Alternative.Id
 //@   loop 1 invariant [rest] (forall k int :: 0 <= k && k < len(result) && (k < resultInsertIndex || k >= resultInsertIndex + iter) ==> result[k] == old(result[k]))
 //@             && (forall k int :: 0 <= k && k < len(resultIds) && (k < resultInsertIndex || k >= resultInsertIndex + iter) ==> resultIds[k] == old(resultIds[k]))
 //@   loop 1 invariant [input] unchanged(leftToChoice)
+
+// ---- the method as a whole (C13, C01, C14): what is decoded is what is used, every examined alternative appears once
+//@ func (*Satisfaction).ParseParams
+//@   property C13 C14 C20 C01
+//@   ensures [decoded_parameters] typeis(result, SatisfactionParameters)
+//@             && result.(SatisfactionParameters).Function == (decoded_has(dm.MethodParameters, "Function") ? decoded_str(dm.MethodParameters, "Function") : "")
+//@             && result.(SatisfactionParameters).CurrentChoice == (decoded_has(dm.MethodParameters, "CurrentChoice") ? decoded_str(dm.MethodParameters, "CurrentChoice") : "")
+//@             && result.(SatisfactionParameters).RandomSeed == (decoded_has(dm.MethodParameters, "RandomSeed") ? decoded_int(dm.MethodParameters, "RandomSeed") : 0)
+//@             && result.(SatisfactionParameters).RandomAlternativesOrdering == (decoded_has(dm.MethodParameters, "RandomAlternativesOrdering") && decoded_bool(dm.MethodParameters, "RandomAlternativesOrdering"))
+// what the abstract "current choice" and "random order" of limited_rationality.HeuristicParams are for these parameters
+//@ spec saCurrent(p limited_rationality.HeuristicParams) string = p.(*SatisfactionParameters).CurrentChoice
+//@ spec saRandom(p limited_rationality.HeuristicParams) bool = p.(*SatisfactionParameters).RandomAlternativesOrdering
+//@ func (*SatisfactionParameters).GetCurrentChoice
+//@   property C13 C01
+//@   nopanic
+//@   refines limited_rationality.HeuristicParams.GetCurrentChoice with currentChoiceOf=saCurrent
+//@   ensures result == s.CurrentChoice
+//@ func (*SatisfactionParameters).IsRandomAlternativesOrdering
+//@   property C13 C01
+//@   nopanic
+//@   refines limited_rationality.HeuristicParams.IsRandomAlternativesOrdering with randomOrderOf=saRandom
+//@   ensures result == s.RandomAlternativesOrdering
+//@ func (*SatisfactionParameters).GetRandomSeed
+//@   property C13 C01
+//@   nopanic
+//@   ensures result == s.RandomSeed
+
+//@ func (*Satisfaction).Evaluate
+//@   property C13 C14 C01
+//@   requires [parameters] typeis(dmp.MethodParameters, SatisfactionParameters)
+//@   requires [distinct_alternatives] model.distinctAltIds(dmp.ConsideredAlternatives)
+//@   returnhint [level_source_named_in_the_request] len(params.Function) > 0 && exists k int :: 0 <= k && k < len(s.functions) && satisfaction_levels.sourceName(s.functions[k]) == params.Function
+//@             && satisfactionLevels == satisfaction_levels.blankOf(s.functions[k]) && forall j int :: 0 <= j && j < k ==> satisfaction_levels.sourceName(s.functions[j]) != params.Function
+//@   returnhint [accepted_first_then_the_leftovers] len(result) == 1 + len(considered) && 0 <= resultInsertIndex && resultInsertIndex + len(leftToChoice) == len(result)
+//@             && (forall k int :: 0 <= k && k < resultInsertIndex ==> meets(result[k].Alternative, dmp.Criteria, result[k].Evaluation.(SatisfactionEvaluation).SatisfiedThresholds)
+//@                    && result[k].Evaluation.(SatisfactionEvaluation).ThresholdsIndex <= thresholdIndex)
+//@             && (forall k int :: 0 <= k && k < len(leftToChoice) ==> result[resultInsertIndex + k].Alternative == leftToChoice[k]
+//@                    && result[resultInsertIndex + k].Evaluation.(SatisfactionEvaluation).ThresholdsIndex == thresholdIndex + 1)
+//@   returnhint [ids_match_entries] len(resultIds) == len(result) && forall j int :: 0 <= j && j < len(result) ==> resultIds[j] == result[j].Alternative.Id
+//@   ensures [one_entry_per_examined_alternative] result != nil && (len(dmp.MethodParameters.(SatisfactionParameters).CurrentChoice) == 0 ==> len(*result) == len(dmp.ConsideredAlternatives))
+//@   ensures [each_links_to_the_next] forall i int :: 0 <= i && i < len(*result) ==>
+//@             (i + 1 < len(*result) ? (len((*result)[i].BetterThanOrSameAs) == 1 && (*result)[i].BetterThanOrSameAs[0] == (*result)[i + 1].Alternative.Id) : len((*result)[i].BetterThanOrSameAs) == 0)
